@@ -93,8 +93,8 @@ PLANS = {
             ("h8-real", 8, ["-hf", "0,1,2", "-modes", "walk"]),
             ("h8-real-jumps", 8, ["-hf", "0", "-modes", "jumps", "-jumpmode", "classes", "-stride", "9"]),
             ("h10-real", 10, ["-hf", "0", "-modes", "walk"]),
-            ("h8-seam", 8, ["-hf", "1", "-seam", "-modes", "jumps", "-jumpmode", "all"]),
-            ("h10-seam", 10, ["-hf", "2", "-seam", "-modes", "walk,jumps", "-jumpmode", "classes", "-stride", "3"]),
+            ("h8-seam", 8, ["-hf", "1", "-seam", "-modes", "jumps", "-jumpmode", "all", "-stride", "5"]),
+            ("h10-seam", 10, ["-hf", "2", "-seam", "-modes", "walk,jumps", "-jumpmode", "classes", "-stride", "9"]),
             ("h12-seam", 12, ["-hf", "0", "-seam", "-modes", "walk,jumps", "-jumpmode", "classes", "-stride", "41"]),
             ("h14-seam", 14, ["-hf", "1", "-seam", "-modes", "walk"]),
             ("h16-tall", 16, ["-hf", "0", "-seam", "-modes", "tall"]),
@@ -127,6 +127,7 @@ PLANS = {
             ("h6-real", 6, ["-hf", "0", "-modes", "rebuild", "-window", "8", "-crashevery", "5"]),
             ("h6-seam", 6, ["-hf", "1", "-seam", "-modes", "rebuild", "-window", "64"]),
             ("h8-seam", 8, ["-hf", "2", "-seam", "-modes", "rebuild", "-window", "10", "-crashevery", "7"]),
+            ("h18-tallrebuild", 18, ["-hf", "0", "-seam", "-modes", "tallrebuild"]),
         ],
         "thorough": [
             ("h4-real", 4, ["-hf", "0,1,2", "-modes", "rebuild", "-window", "16"]),
@@ -134,6 +135,8 @@ PLANS = {
             ("h8-real", 8, ["-hf", "0", "-modes", "rebuild", "-window", "10", "-crashevery", "11"]),
             ("h8-seam", 8, ["-hf", "1", "-seam", "-modes", "rebuild", "-window", "256"]),
             ("h10-seam", 10, ["-hf", "2", "-seam", "-modes", "rebuild", "-window", "12", "-crashevery", "13"]),
+            ("h18-tallrebuild", 18, ["-hf", "0", "-seam", "-modes", "tallrebuild"]),
+            ("h20-tallrebuild", 20, ["-hf", "1", "-seam", "-modes", "tallrebuild"]),
         ],
     },
 }
